@@ -5,8 +5,8 @@
    LastIndexAny against byte-exact models of the namesakes (StdAscii.v,
    StdAscii2.v).  IndexByte / LastIndexByte are characterised byte-exactly in
    C10.  Caseless class: proved for Index, Contains, LastIndex, HasPrefix,
-   HasSuffix, TrimPrefix, TrimSuffix, CutPrefix, CutSuffix, Count, Cut
-   (Caseless.v); Compare and the character searches of that class are decided
+   HasSuffix, TrimPrefix, TrimSuffix, CutPrefix, CutSuffix, Count, Cut and
+   Compare (UTF-8 preserves code-point order) (Caseless.v); the character searches of that class are decided
    by the direct comparison with strings/bytes in the C20 run (see C20_partial note in
    DESIGN.md); EqualFold holds on ALL byte strings by C02. *)
 From Strcase Require Import Base Utf8 Utf8Facts Spec SpecFacts SpecIndex SpecAffix Fold FoldFacts FoldTables FoldFacts121 StdSpec StdAscii.
@@ -76,6 +76,10 @@ Theorem C20_caseless_index : forall s t, wf s -> wf t -> caseless121 s -> casele
   index fold121 s t = std_index s t.
 Proof. exact (caseless_index fold121). Qed.
 Print Assumptions C20_caseless_index.
+Theorem C20_caseless_compare : forall s t, wf s -> wf t -> caseless121 s -> caseless121 t ->
+  compare fold121 s t = std_compare s t.
+Proof. exact (caseless_compare fold121). Qed.
+Print Assumptions C20_caseless_compare.
 Theorem C20_caseless_contains : forall s t, wf s -> wf t -> caseless121 s -> caseless121 t ->
   contains fold121 s t = std_contains s t.
 Proof. exact (caseless_contains fold121). Qed.
